@@ -408,8 +408,17 @@ func ruleR07bFor(c *Ctx, withChecker, withJS bool) {
 	useAppends := map[*ast.CallExpr]bool{}
 	if entry := c.mustFunc("parsepasses", "CheckDataRefs"); entry != nil {
 		U := map[*types.Var]bool{}
+		assigned := map[ast.Expr]bool{} // selectors that are only being (re)set there, not read
 		ast.Inspect(entry.Body, func(x ast.Node) bool {
-			if se, ok := x.(*ast.SelectorExpr); ok {
+			if as, ok := x.(*ast.AssignStmt); ok {
+				for _, l := range as.Lhs {
+					assigned[ast.Unparen(l)] = true
+				}
+			}
+			return true
+		})
+		ast.Inspect(entry.Body, func(x ast.Node) bool {
+			if se, ok := x.(*ast.SelectorExpr); ok && !assigned[se] {
 				if fv := fieldOf(se, cinfo); fv != nil && fv.Name() != "params" {
 					if _, ok := fv.Type().Underlying().(*types.Slice); ok {
 						U[fv] = true
